@@ -56,6 +56,11 @@ pub fn cmd_timer(req: &Value) -> Value {
             } else if let Some(c) = op.get("finalize").and_then(|v| v.as_u64()) {
                 t.finalize_instruction(c);
                 out.push(json!({"next_mti": t.next_mti, "next_sti": t.next_sti}));
+            } else if op.get("mreset").is_some() {
+                // what a machine reset does around the timer: counter back to 0, timers re-armed from there, status cleared
+                t.reset(0);
+                mem.write_internal_byte(0xFC, 0);
+                out.push(json!({"next_mti": t.next_mti, "next_sti": t.next_sti}));
             } else if let Some(c) = op.get("reset").and_then(|v| v.as_u64()) {
                 t.reset(c);
                 out.push(json!({"next_mti": t.next_mti, "next_sti": t.next_sti}));
